@@ -937,7 +937,12 @@ def ungroup_order(ctx: Ctx) -> None:
         fs = facts(ctx, f, pushes[0])
         pos = [a for a, pol in fs if pol and isinstance(a, ast.Call) and ast.unparse(a) == f"isinstance({nv}, NoteWithTail)"]
         okp = bool(pos) and ast.unparse(pushes[0].args[0]) == H
-    ctx.expect("R-ORDER", f, "every joined note pushes exactly one tail", okp, "", f"{len(pushes)} heappush site(s)", node=il)
+    if okp:
+        ctx.ok("R-ORDER", f, "every joined note pushes exactly one tail", "one heappush under isinstance(<element>, NoteWithTail)", node=il)
+    else:
+        # the per-element decision table below judges the push (once per joined note, none otherwise) on the path effects, wherever and under
+        # whatever spelling of the guard it is written; this syntactic view is only recorded
+        ctx.observe("R-ORDER", f, "every joined note pushes exactly one tail", f"{len(pushes)} heappush site(s), guard not in the 'isinstance' spelling - left to the element table", node=il)
     # what happens to each element: a decision table over path effects (the orphan check is judged wherever it is written:
     # in a helper, a closure or in line)
     from .tables import Dec, judge as tjudge, sums_of as tsums, touches
